@@ -199,6 +199,8 @@ PROPS = {
             "technique": "executable Lean model + Lean 4 proofs on the multisig matching loop and flag logic + step-by-step differential correspondence check",
         },
         "generators": ["C06"],
+        "gen_obligations": ["cleanup_allocates_script_code"],
+        "witness": [("GoBT.Interp.WriteReview", "GoBT.Interp.WriteReview.offending")],
         "thorough_seeds": 1,
         "rule": "CHECKSIG matrix (cases x key forms x hash types x flag subsets x eras), separator positions, multisig arrangements for n<=3 (thorough: n<=4). Non-trivial = trace reaches a signature opcode.",
         "nontrivial": lambda op, impl: impl.count("|") >= 1,
@@ -280,6 +282,8 @@ PROPS = {
             "note": "The independence of the verdict from the debugger is by construction in the model (the execution function takes no debugger input) and by three-way comparison on the real code; thread.State() producing deep copies is an assumption checked by the scribbling runs. Trusted: Lean kernel + standard axioms, harness/generators/comparer, driver glue incl. the lifecycle automaton.",
         },
         "generators": ["C19"],
+        "gen_obligations": ["snapshot_is_deep_copy"],
+        "witness": [("GoBT.Interp.WriteReview", "GoBT.Interp.WriteReview.offending")],
         "thorough_seeds": 1,
         "rule": "1500/60000 random programs (both eras, five policy flag sets), 60 P2SH programs (script-change events), shift/BIN2NUM/SPLIT programs; each x {none, recording, scribbling}. Non-trivial = program with at least 2 steps.",
         "nontrivial": lambda op, impl: impl.count("|") >= 1,
